@@ -46,6 +46,19 @@ Theorem C35_depth_unique : forall t maxd,
   forall h d d', depth_of t h d -> depth_of t h d' -> d = d'.
 Proof. exact depth_unique. Qed.
 
+(* on acceptance the relationship details handed on (IntentRelationships) are exactly the declared
+   structure: children as positions in the subintent list, every subintent's recorded parent is an
+   intent that declares it, its recorded depth is its distance from the root *)
+Theorem C35_accept_details : forall t maxd r ps ds chs,
+  root_not_placeholder t -> effective_max t = Some maxd ->
+  validate t = Accept r ps ds chs ->
+  r = map (pos (hashes_of t)) (i_children (t_root t)) /\
+  chs = map (fun s => map (pos (hashes_of t)) (i_children (s_intent s))) (t_subs t) /\
+  forall k h, nth_error (hashes_of t) k = Some h ->
+    exists p d, nth_error ps k = Some p /\ In (p, h) (edges t) /\
+                nth_error ds k = Some (N.of_nat d) /\ depth_of t h d.
+Proof. exact accept_details. Qed.
+
 (* --- concrete instances --- *)
 Definition mk (h : N) (cs : list N) (py : N) (cy : list (N * N)) : sub :=
   Build_sub h (Build_intent cs (Build_summary py cy)).
@@ -112,4 +125,5 @@ Print Assumptions C35_worklist_terminates.
 Print Assumptions C35_fuel_irrelevant.
 Print Assumptions C35_no_panic.
 Print Assumptions C35_depth_unique.
+Print Assumptions C35_accept_details.
 Print Assumptions C35_nonvacuous.
